@@ -130,6 +130,8 @@ def c15_search(r, seed, tier, model_ok):
     R = random.Random(seed * 7919 + 0xC15); n = N(tier, 600, 9000); SCR = scratch("c15"); cwd = os.getcwd()
     def spell(lit):
         s = E(lit); k = R.random()
+        if R.random() < .25: s = s + "ㄱㄱ" * R.randrange(1, 3)          # another spelling of the same number (zero-padded, parity kept)
+        if lit == 0 and R.random() < .5: s = "ㄱ" * R.randrange(1, 5)      # zero is the one number spelled in both parities
         if k < .35: return s
         if k < .5: return s + R.choice([".txt", ".pbhhg", " ", ".ㅏ"])
         if k < .6: return R.choice(["_", " ", "1"]) + s
@@ -235,6 +237,12 @@ def c15_semantics(r, seed, tier, model_ok):
                                ("unknown-builtin", f"ㅂ {E(R.choice([77, 1, -3]))} ㅂㅎㄷ"), ("unknown-builtin-deep", f"ㅂ ㅂ {E(R.choice([9, 5]))} ㅂㅎㄹ"), ("dir-by-literal", "ㄹ ㅂㅎㄴ")]:
                 MOD._MODULE_REGISTRY.clear(); got = ev(prog); n += 1; cnt[what + ":" + got.split()[0]] += 1
                 if not got.startswith("E 5,"): bad.append(dict(program=prog, impl=got, model=f"language-level exception ({what})", which=["bad_module"]))
+            # a bad module stays bad: importing it again in the same process (no registry reset), also as a retry inside a handler, by either route
+            open("ㅅ", "w").write("ㄴ ㄷ"); MOD._MODULE_REGISTRY.clear()
+            for what, prog in [("two-expressions-first", "ㅅ ㅂㅎㄴ"), ("two-expressions-again", "ㅅ ㅂㅎㄴ"), ("two-expressions-by-path", f"{strlit('ㅅ')} ㅂㅎㄴ"),
+                               ("two-expressions-retry", "(ㅅ ㅂㅎㄴ) ((ㅅ ㅂㅎㄴ) ㅎ) ㅅㄷㅎㄷ"), ("empty-again", f"{strlit('empty')} ㅂㅎㄴ"), ("empty-again2", f"{strlit('empty')} ㅂㅎㄴ")]:
+                got = ev(prog); n += 1; cnt[what + ":" + got.split()[0]] += 1
+                if not got.startswith("E 5,"): bad.append(dict(program=prog + "   (second / later import of a module that is not exactly one expression, same process)", impl=got, model=f"the same language-level exception every time ({what})", which=["bad_module_again"]))
             os.chdir(SCR); shutil.rmtree(d, ignore_errors=True)
     finally:
         os.chdir(cwd); shutil.rmtree(SCR, ignore_errors=True); MOD._MODULE_REGISTRY.clear()
@@ -273,6 +281,10 @@ def c20_isolation(r, seed, tier, model_ok):
         t, _, _ = slices_core.io_text_closed(R, R.randrange(1, 4)); progs.append(dict(text=t, stdin="".join(R.choice(["a", "bc", ""]) + "\n" for _ in range(R.randrange(0, 4)))))
     imps = ["ㄴ ㄷ ㅂㅎㄷ", "ㄹ ㅂㅎㄴ", "ㅁ (ㄴ ㄷ ㅂㅎㄷ) ㅎㄴ", "ㄴ ㄷ ㅂㅎㄷ ㄴ ㄷ ㅂㅎㄷ ㄴㅎㄷ", "ㅈ ㅂㅎㄴ", "ㄱ (ㄹ ㅂㅎㄴ) ㅎㄴ"]
     for t in imps * 2: progs.append(dict(text=t))
+    # shared dictionaries: built-in module directories live for the whole process; sums / merges with them must not change them
+    for t in ["ㅂ ((ㅂ ㅅ ㅂㅎㄷ) (ㅂ ㄱ ㅅㅈㅎㄷ) ㄷㅎㄷ) ㅎㄴ", "ㅂ ㅅ ㅂ ㅂㅎㄹ ㅂ ㅅ ㅂㄹ ㄱ ㅂㅎㅁ ㅎㄴ", "ㄱ ((ㅂ ㅂㄷ ㅂㅎㄷ) (ㄱ ㄴ ㅅㅈㅎㄷ) ㄷㅎㄷ) ㅎㄴ", "ㄹ ㅂ (ㅂ ㅂㄷ ㄱ ㅂㅎㄹ) ㅎㄷ",
+              "ㄱ ((ㅂ ㅅ ㅂㄹ ㅂㅎㄹ) (ㄱ ㄴ ㅅㅈㅎㄷ) ㄷㅎㄷ) ㅎㄴ", "ㄷ ㅅㅅㅎㄴ ㅂ ㅅ ㅂㄹ ㄱ ㅂㅎㅁ ㅎㄴ", "ㄴ ((ㄴ ㄷ ㅅㅈㅎㄷ) (ㄴ ㄹ ㅅㅈㅎㄷ) ㄷㅎㄷ) ㅎㄴ", "ㅂ ㅂ ㅂㅎㄷ ㅂ ㅂ ㅂㅎㄷ ㄴㅎㄷ",
+              "(ㄱㅇㄱ (ㄴ ㅁ ㅅㅈㅎㄷ) ㄷㅎㄷ ㄱㅇㄱ ㅁㄹㅎㄷ ㅎ) (ㄴ ㄷ ㅅㅈㅎㄷ) ㅎㄴ ㅁㅈ ㅁㄷㅎㄷ" ] * 2: progs.append(dict(text=t))
     progs += [dict(text="ㄴ ㄷ ㄷ\nㅎㄷ"), dict(text="ㄴ ㄷ ㄱ\nㅎㄷ"), dict(text="ㄴ ㄷ ㄴ\nㅎㄷ"), dict(text="ㄴ ㄷ (ㄱㅇㄱ ㅎ)\nㅎㄷ")]
     uniq = list({(p["text"], p.get("stdin", "")): p for p in progs}.values())
     try:
